@@ -421,7 +421,7 @@ func (e *fdEngine) terms(fn *ssa.Function) []*fdTerm {
 		}
 	}
 	// error parameters of synthetic range-over-func bodies: pass-through layers
-	if fn.Synthetic == "range-over-func yield" && e.mode == fdStream {
+	if isIterBody(fn) && e.mode == fdStream {
 		for _, p := range fn.Params {
 			if isErrT(p.Type()) {
 				t := &fdTerm{val: p, what: "error variable of a range-over-func loop (pass-through)", alias: map[ssa.Value]bool{p: true}}
@@ -611,7 +611,12 @@ func (e *fdEngine) analyze(fn *ssa.Function, t *fdTerm) ([]fdFinding, map[*ssa.B
 			case defIdx >= 0:
 				s, start = full, defIdx+1
 			case defIdx == -2:
+				// a merge: the classes its incoming values can have on their edges (a value tested against nil on the
+				// way in is known; SSA values do not change)
 				s, start = full, 0
+				if phi, ok := t.def.(*ssa.Phi); ok {
+					s = mkSt(phiClasses(phi, int(full), 0, map[*ssa.Phi]bool{}))
+				}
 			default:
 				if !startDone {
 					s = full
@@ -630,6 +635,14 @@ func (e *fdEngine) analyze(fn *ssa.Function, t *fdTerm) ([]fdFinding, map[*ssa.B
 					// call of a function value (consumer callback / yield): reporting event
 					if argsUse(x.Call.Args, t.alias) {
 						s = s.report()
+					}
+				} else if g := x.Call.StaticCallee(); g != nil && g.Blocks != nil && g.Pkg != nil && strings.HasPrefix(g.Pkg.Pkg.Path(), modPath) && !x.Call.IsInvoke() {
+					// handed to a module function as its error parameter: that function reports it (its own obligation
+					// on the parameter, see terms)
+					for i, a := range x.Call.Args {
+						if t.alias[a] && i < len(g.Params) && isErrT(g.Params[i].Type()) {
+							s = s.report()
+						}
 					}
 				}
 			case *ssa.Panic:
@@ -798,6 +811,21 @@ func (e *fdEngine) companionUses(fn *ssa.Function, t *fdTerm, in map[*ssa.BasicB
 			if _, ok := r.(*ssa.DebugRef); ok {
 				continue
 			}
+			// the data handed to a module function together with its error: that function decides (its parameter
+			// is a term of its own)
+			if cl, ok := r.(*ssa.Call); ok && !cl.Call.IsInvoke() {
+				if g := cl.Call.StaticCallee(); g != nil && g.Blocks != nil && g.Pkg != nil && strings.HasPrefix(g.Pkg.Pkg.Path(), modPath) {
+					withErr := false
+					for i, a := range cl.Call.Args {
+						if t.alias[a] && i < len(g.Params) && isErrT(g.Params[i].Type()) {
+							withErr = true
+						}
+					}
+					if withErr {
+						continue
+					}
+				}
+			}
 			b := r.Block()
 			if _, isPhiTerm := t.val.(*ssa.Phi); isPhiTerm && b == ex.Block() {
 				// uses in the merge block itself precede the test only if they are not the test
@@ -911,3 +939,180 @@ func (e *fdEngine) onlySentinelArgs(fn *ssa.Function, pi int) bool {
 	}
 	return n > 0 && all
 }
+
+// isIterBody: fn is the body of a loop over an iterator: the synthetic body of a range-over-func statement, or a
+// literal that is only ever handed, as the loop body, to a value of type iter.Seq / iter.Seq2.
+func isIterBody(fn *ssa.Function) bool {
+	if fn.Synthetic == "range-over-func yield" {
+		return true
+	}
+	p := fn.Parent()
+	if p == nil || fn.Signature.Results().Len() != 1 || !types.Identical(fn.Signature.Results().At(0).Type(), types.Typ[types.Bool]) {
+		return false
+	}
+	n, ok := 0, true
+	instrs(p, func(in ssa.Instruction) {
+		mc, isMC := in.(*ssa.MakeClosure)
+		if !isMC || mc.Fn != ssa.Value(fn) {
+			return
+		}
+		for _, ref := range *mc.Referrers() {
+			cl, isCall := ref.(*ssa.Call)
+			if !isCall || len(cl.Call.Args) != 1 || cl.Call.Args[0] != ssa.Value(mc) || cl.Call.IsInvoke() {
+				ok = false
+				continue
+			}
+			nt, isNamed := cl.Call.Value.Type().(*types.Named)
+			if !isNamed || nt.Obj().Pkg() == nil || nt.Obj().Pkg().Path() != "iter" {
+				ok = false
+				continue
+			}
+			n++
+		}
+	})
+	return ok && n > 0
+}
+
+// valClassOnEdge: the classes value v can have when control goes from p to b: nil constants are nil; a comparison
+// of v itself with nil on that edge or on an edge that dominates p decides; merges are the union over their edges.
+func valClassOnEdge(v ssa.Value, p, b *ssa.BasicBlock, full int, depth int, seen map[*ssa.Phi]bool) int {
+	if isNilConst(v) {
+		return cNil
+	}
+	cls := full
+	refine := func(iff *ssa.If, onTrue bool) {
+		bo, ok := iff.Cond.(*ssa.BinOp)
+		if !ok || (bo.Op != token.EQL && bo.Op != token.NEQ) {
+			return
+		}
+		if !((bo.X == v && isNilConst(bo.Y)) || (bo.Y == v && isNilConst(bo.X))) {
+			return
+		}
+		isNil := (bo.Op == token.EQL) == onTrue
+		if isNil {
+			cls &= cNil
+		} else {
+			cls &^= cNil
+		}
+	}
+	if iff, ok := lastInstr(p).(*ssa.If); ok && p.Succs[0] != p.Succs[1] {
+		refine(iff, p.Succs[0] == b)
+	}
+	for x := p; x != nil && x.Idom() != nil; x = x.Idom() {
+		d := x.Idom()
+		if len(x.Preds) != 1 || x.Preds[0] != d {
+			continue
+		}
+		if iff, ok := lastInstr(d).(*ssa.If); ok && d.Succs[0] != d.Succs[1] {
+			refine(iff, d.Succs[0] == x)
+		}
+	}
+	if phi, ok := v.(*ssa.Phi); ok && depth < 4 && cls == full {
+		return phiClasses(phi, full, depth+1, seen)
+	}
+	return cls
+}
+
+// phiClasses: union of the classes of a merge's incoming values on their edges (a merge met again on the way — a
+// loop-carried variable — contributes nothing new).
+func phiClasses(phi *ssa.Phi, full int, depth int, seen map[*ssa.Phi]bool) int {
+	if seen[phi] {
+		return 0
+	}
+	seen[phi] = true
+	defer delete(seen, phi)
+	cls := 0
+	for i, e := range phi.Edges {
+		cls |= valClassOnEdge(e, phi.Block().Preds[i], phi.Block(), full, depth, seen)
+	}
+	if cls == 0 {
+		return full
+	}
+	return cls
+}
+
+// valClassAtBlock: the classes (nil / EOF / other) error value v can have on entry to block b, from the comparisons
+// of v itself with nil and io.EOF on the forward paths from its definition (union over predecessors).
+func valClassAtBlock(v ssa.Value, b *ssa.BasicBlock, full int) int {
+	var defB *ssa.BasicBlock
+	if in, ok := v.(ssa.Instruction); ok {
+		defB = in.Block()
+	}
+	memo := map[*ssa.BasicBlock]int{}
+	busy := map[*ssa.BasicBlock]bool{}
+	var at func(b *ssa.BasicBlock) int
+	at = func(b *ssa.BasicBlock) int {
+		if b == defB || len(b.Preds) == 0 {
+			return full
+		}
+		if c, ok := memo[b]; ok {
+			return c
+		}
+		if busy[b] {
+			return 0
+		}
+		busy[b] = true
+		cls := 0
+		for _, p := range b.Preds {
+			if b.Dominates(p) && b != p {
+				continue // back edge
+			}
+			c := at(p)
+			if iff, ok := lastInstr(p).(*ssa.If); ok && p.Succs[0] != p.Succs[1] {
+				if bo, ok := iff.Cond.(*ssa.BinOp); ok && (bo.Op == token.EQL || bo.Op == token.NEQ) {
+					var other ssa.Value
+					if bo.X == v {
+						other = bo.Y
+					} else if bo.Y == v {
+						other = bo.X
+					}
+					if other != nil {
+						eq := (bo.Op == token.EQL) == (p.Succs[0] == b)
+						switch {
+						case isNilConst(other) && eq:
+							c &= cNil
+						case isNilConst(other):
+							c &^= cNil
+						case isEOFLoad(other) && eq:
+							c &= cEOF
+						case isEOFLoad(other):
+							c &^= cEOF
+						}
+					}
+				}
+			}
+			cls |= c
+		}
+		busy[b] = false
+		memo[b] = cls
+		return cls
+	}
+	return at(b)
+}
+
+// streamDerivedFuncs: the module functions one of whose error results may carry a stream error (computed once).
+var streamDerivedCache map[*types.Func]bool
+
+func (c *Ctx) isStreamFunc(fo *types.Func) bool {
+	if fo == nil {
+		return false
+	}
+	if _, ok := streamSources[fo.FullName()]; ok {
+		return true
+	}
+	if streamDerivedCache == nil {
+		streamDerivedCache = map[*types.Func]bool{}
+		funcs := withReachedDeps(c, formatFuncs(c))
+		e := &fdEngine{c: c, mode: fdStream}
+		e.computeDerived(funcs)
+		for f := range e.derived {
+			if o, ok := f.Object().(*types.Func); ok {
+				streamDerivedCache[o] = true
+			}
+		}
+	}
+	return streamDerivedCache[fo.Origin()]
+}
+
+// extraStreamFunc lets AST-level rules recognise module functions that hand a stream error on (set by the rules).
+var extraStreamFunc func(*types.Func) bool
